@@ -367,7 +367,9 @@ end lines
 
 /-! ## non-vacuity -/
 
-example : elements.length = 84 ∧ isotopes.length = 290 ∧ allSpecies.length = 374 := by decide +kernel
+/-- the table is not empty (lower bounds only: adding species must not break the build) -/
+example : 80 ≤ elements.length ∧ 250 ≤ isotopes.length ∧ allSpecies.length = elements.length + isotopes.length := by
+  decide +kernel
 example : lookupElement elementIndex (.str (enc "Fe")) = some o_iron := by decide +kernel
 example : lookupElement elementIndex (.str (enc "TUNGSTEN")) = some o_tungsten := by decide +kernel
 example : lookupElement elementIndex (.int 18) = some o_argon := by decide +kernel
